@@ -150,7 +150,7 @@ impl MemConn {
                 // a caller that keeps reading after the end (or after an error) without ever giving
                 // up is spinning: break the loop so that the harness can report it
                 st.reads_after_end += 1;
-                if st.reads_after_end > 200_000 {
+                if st.reads_after_end > 20_000 {
                     st.stalled = Some(format!("the server read {} times after end-of-stream / a read error without giving up (busy loop)", st.reads_after_end));
                     drop(st);
                     panic!("verif: busy loop on a finished connection");
